@@ -21,11 +21,17 @@ Main results
   hypothesis, `d` being the signed 16-bit distance.
 * `C03_pcr_org_counterexample_fixed` — `S LEAX T,PCR / ORG $CB / T NOP` (and the older `ORG $1000` witness) is a
   diagnostic now; `C03_pcr_org_example`: an ORG in between with the target in range is accepted and correct.
-* `C03_pcr_plus_negative_finding` — `L+N,PCR` with `N` negative below `−address(L)`: the target is `|address + N|`.
+* `C03_pcr_plus_negative_fixed` — (batch B3, formerly `C03_pcr_plus_negative_finding`) `L+N,PCR` with `N` negative below
+  `−address(L)` aims at `(address + N) mod 65536` now.
+* batch B3: a PCR operand is recognised by `pkg.choices ≠ []` (not `needsRes`, which the label offset of a pointer register
+  has too).  `C03_pcr_field_target`, `C03_pcr_expr_field` — every PCR statement, either width, with the target spelt out
+  (`≡ address ± c (mod 65536)` for every sign of `c`, `c − address` for `c − label`); `C03_label_offset_target`,
+  `C03_label_offset`, `C03_label_offset_postbyte` — `LDA TABLE,X` carries the ADDRESS in a 16-bit field, post byte `$x9`.
 -/
 import CoCoVerif.Lemmas.PcrWidthFix
 import CoCoVerif.Lemmas.PcrWidthPost
 import CoCoVerif.Props.C03
+import CoCoVerif.Props.C02Size
 
 namespace CoCo.Props
 open CoCo CoCo.Asm
@@ -53,7 +59,7 @@ theorem C03_translate_sizes {ss1 ss2 : List Stmt} (ht : translateAll ss1 = some 
     exfalso
     obtain ⟨s1, hs1, p, htr, rfl⟩ := (translateAll_pw ht).get' hs
     have hc' : p.choices ≠ [] := hc
-    have hf' : (!(p.needsRes || !p.choices.isEmpty)) = true := hf
+    have hf' : p.choices.isEmpty = true := hf
     cases hp : p.choices with
     | nil => exact hc' hp
     | cons c cs => rw [hp] at hf'; simp at hf'
@@ -77,7 +83,7 @@ field is the two's complement byte `d mod 256` at two hex digits. -/
 theorem C03_pcr8_width {fs : Files} {lines : List Str} {a : Assembly} (h : assemble fs lines = .ok a) :
     ∃ ss4 : List Stmt, PW SameButAdditional ss4 a.stmts ∧
       ∀ (i : Nat) (s4 s : Stmt), ss4[i]? = some s4 → a.stmts[i]? = some s →
-        s.pkg.needsRes = true → s.pcrHint = 2 →
+        s.pkg.choices ≠ [] → s.pcrHint = 2 →
         ∃ b, relIndex s4.pkg.additional = some b ∧ exprForces s4.pkg.additional = false ∧
           ∀ t, a.stmts[b]? = some t →
             (∀ j u, min b i < j → j ≤ max b i → a.stmts[j]? = some u → u.row.mnemonic ≠ "ORG") →
@@ -87,11 +93,11 @@ theorem C03_pcr8_width {fs : Files} {lines : List Str} {a : Assembly} (h : assem
               Dist8 s4.pkg.additional x y s.pkg.size d := by
   obtain ⟨st⟩ := assemble_stages h
   refine ⟨st.ss4, fixAll_pw st.hfix, ?_⟩
-  intro i s4 s hs4 hs hn hh
-  obtain ⟨s3, s4', pre⟩ := st.pcr_pre hs hn
+  intro i s4 s hs4 hs hc hh
+  obtain ⟨s3, s4', pre⟩ := st.pcr_pre hs hc
   have : s4' = s4 := by have := pre.h4; rw [hs4] at this; exact (Option.some.inj this).symm
   subst this
-  exact st.pcr8_stored hs hn hh pre
+  exact st.pcr8_stored hs hh pre
 
 /-! ### plain labels -/
 
@@ -102,7 +108,7 @@ private theorem plain_addl {fs : Files} {lines : List Str} {a : Assembly} {st : 
     s4.pkg.additional.isAddrExpr = false ∧ relIndex s4.pkg.additional = some b := by
   have hop : s.operand = s4.operand := pre.same.2.2.2.2
   obtain ⟨hh, mm, hadd⟩ : ∃ hh mm, s4.pkg.additional = .numeric b hh mm false :=
-    pre.left pre.choices (.address b m) (by rw [← hop]; exact hl)
+    pre.left pre.needs (.address b m) (by rw [← hop]; exact hl)
   rw [hadd]
   exact ⟨rfl, rfl⟩
 
@@ -112,11 +118,11 @@ field (before `fit_operand_width` re-renders it) is `NumericValue(pcrJump, size_
 16-bit distance from the end of `s` to the ADDRESS of `t`, and, on the 8-bit form, `−128 ≤ pcrJump ≤ 127`.
 This is the second clause of `C03_Statement`. -/
 theorem C03_pcr_label {fs : Files} {lines : List Str} {a : Assembly} (h : assemble fs lines = .ok a)
-    {i b : Nat} {m : Mode} {s t : Stmt} (hs : a.stmts[i]? = some s) (hn : s.pkg.needsRes = true)
+    {i b : Nat} {m : Mode} {s t : Stmt} (hs : a.stmts[i]? = some s) (hc : s.pkg.choices ≠ [])
     (hl : s.operand.left = .val (.address b m)) (ht : a.stmts[b]? = some t) :
     PcrField s t := by
   obtain ⟨st⟩ := assemble_stages h
-  obtain ⟨s3, s4, pre⟩ := st.pcr_pre hs hn
+  obtain ⟨s3, s4, pre⟩ := st.pcr_pre hs hc
   obtain ⟨he, hb⟩ := plain_addl pre hl
   obtain ⟨target, start, v, htgt, hstart, hnum, hsv, _⟩ := pre.stored
   obtain ⟨x, hx⟩ := st.chained.isSome hs
@@ -141,15 +147,15 @@ theorem C03_pcr_label {fs : Files} {lines : List Str} {a : Assembly} (h : assemb
 
 /-- **the PCR clause of `C03_Statement` holds for every accepted program** -/
 theorem C03_pcr_clause {fs : Files} {lines : List Str} {a : Assembly} (h : assemble fs lines = .ok a) :
-    ∀ (i b : Nat) (m : Mode) (s t : Stmt), a.stmts[i]? = some s → s.pkg.needsRes = true →
+    ∀ (i b : Nat) (m : Mode) (s t : Stmt), a.stmts[i]? = some s → s.pkg.choices ≠ [] →
       s.operand.left = .val (.address b m) → a.stmts[b]? = some t → PcrField s t :=
-  fun _ _ _ _ _ hs hn hl ht => C03_pcr_label h hs hn hl ht
+  fun _ _ _ _ _ hs hc hl ht => C03_pcr_label h hs hc hl ht
 
 /-- plain label, 8-bit form, ORG or not: `d := address(t) − address(s) − size(s)` read as a signed 16-bit distance
 satisfies `−128 ≤ d ≤ 127`, `NumericValue(d, size_hint=2)` is what `fix_addresses` computes and `fit_operand_width`
 accepts, and the final field is the byte `d mod 256` -/
 theorem C03_pcr_label_in_range {fs : Files} {lines : List Str} {a : Assembly} (h : assemble fs lines = .ok a)
-    {i b : Nat} {m : Mode} {s t : Stmt} (hs : a.stmts[i]? = some s) (hn : s.pkg.needsRes = true)
+    {i b : Nat} {m : Mode} {s t : Stmt} (hs : a.stmts[i]? = some s) (hc : s.pkg.choices ≠ [])
     (hh : s.pcrHint = 2) (hl : s.operand.left = .val (.address b m)) (ht : a.stmts[b]? = some t) :
     ∃ x y v, addrNat s = some x ∧ addrNat t = some y ∧
       -128 ≤ sdist16 ((y : Int) - x - s.pkg.size) ∧ sdist16 ((y : Int) - x - s.pkg.size) ≤ 127 ∧
@@ -157,10 +163,10 @@ theorem C03_pcr_label_in_range {fs : Files} {lines : List Str} {a : Assembly} (h
       fitWidth (withAdditional s v) = .ok s ∧
       s.pkg.additional = .numeric (sdist16 ((y : Int) - x - s.pkg.size) % 256).toNat (some 2) .extended false := by
   obtain ⟨st⟩ := assemble_stages h
-  obtain ⟨s3, s4, pre⟩ := st.pcr_pre hs hn
+  obtain ⟨s3, s4, pre⟩ := st.pcr_pre hs hc
   obtain ⟨he, hb⟩ := plain_addl pre hl
   obtain ⟨b', t', x, y, target, v, hb', _, ht', hx, hy, htg, hlo, hhi, hnum, hfit, hadd⟩ :=
-    st.pcr8_any_target hs hn hh pre
+    st.pcr8_any_target hs hh pre
   rw [hb] at hb'
   have : b = b' := Option.some.inj hb'
   subst this
@@ -173,7 +179,7 @@ theorem C03_pcr_label_in_range {fs : Files} {lines : List Str} {a : Assembly} (h
 computed in ℤ satisfies `−128 ≤ jump ≤ 127`, `NumericValue(jump, size_hint=2)` is what `fix_addresses` computes and
 `fit_operand_width` accepts, and the final field is the byte `jump mod 256` -/
 theorem C03_pcr_label_width {fs : Files} {lines : List Str} {a : Assembly} (h : assemble fs lines = .ok a)
-    {i b : Nat} {m : Mode} {s t : Stmt} (hs : a.stmts[i]? = some s) (hn : s.pkg.needsRes = true)
+    {i b : Nat} {m : Mode} {s t : Stmt} (hs : a.stmts[i]? = some s) (hc : s.pkg.choices ≠ [])
     (hh : s.pcrHint = 2) (hl : s.operand.left = .val (.address b m)) (ht : a.stmts[b]? = some t)
     (hno : ∀ j u, min b i < j → j ≤ max b i → a.stmts[j]? = some u → u.row.mnemonic ≠ "ORG") :
     ∃ x y v, addrNat s = some x ∧ addrNat t = some y ∧
@@ -181,9 +187,9 @@ theorem C03_pcr_label_width {fs : Files} {lines : List Str} {a : Assembly} (h : 
       numericOfInt ((y : Int) - x - s.pkg.size) (some 2) .none = .ok v ∧ fitWidth (withAdditional s v) = .ok s ∧
       s.pkg.additional = .numeric (((y : Int) - x - s.pkg.size) % 256).toNat (some 2) .extended false := by
   obtain ⟨st⟩ := assemble_stages h
-  obtain ⟨s3, s4, pre⟩ := st.pcr_pre hs hn
+  obtain ⟨s3, s4, pre⟩ := st.pcr_pre hs hc
   obtain ⟨he, hb⟩ := plain_addl pre hl
-  obtain ⟨b', hb', _, hw⟩ := st.pcr8_stored hs hn hh pre
+  obtain ⟨b', hb', _, hw⟩ := st.pcr8_stored hs hh pre
   rw [hb] at hb'
   have : b = b' := Option.some.inj hb'
   subst this
@@ -197,33 +203,31 @@ theorem C03_pcr_label_width {fs : Files} {lines : List Str} {a : Assembly} (h : 
 
 /-- **`label ± k,PCR` on the 8-bit form, no ORG in between.**  `l`, `r` are the two sides of the resolved expression,
 one of them the label of statement `b` (`relIndex`).  Then the operator is `+` or `-`, the other side is a number with
-signed value `c = signedK k nk` (batch B2: a constant written or defined with a minus sign counts negatively), and the
-signed distance to `|address(t) + c|` resp. `address(t) − c` computed in ℤ (no wrap, even when `address(t) − c` is
-negative) lies in `−128 .. 127`, is what `fix_addresses` computes as `NumericValue(d, size_hint=2)`, passes
-`fit_operand_width`, and ends as the byte `d mod 256`.  (For the magnitude in the `+` case see
-`C03_pcr_plus_negative_finding`.) -/
+signed value `c = signedK k nk` (a constant written or defined with a minus sign counts negatively), and the signed
+distance `d` to `address(t) + c` resp. `address(t) − c`, computed in ℤ (no wrap, whatever the signs), lies in
+`−128 .. 127`, is what `fix_addresses` computes as `NumericValue(d, size_hint=2)`, passes `fit_operand_width`, and ends
+as the byte `d mod 256`.  Batch B3: no magnitude any more in the `+` case (`C03_pcr_plus_negative_fixed`); NEW case
+`c − label` (the label on the right of the minus sign): the operand denotes `c − address(t)` modulo 65536, and `d` is the
+signed 16-bit distance to THAT (in range because `fix_addresses` checks it). -/
 theorem C03_pcr_expr_width {fs : Files} {lines : List Str} {a : Assembly} (h : assemble fs lines = .ok a)
     {i b : Nat} {l r : Value} {op : Char} {m : Mode} {s t : Stmt} (hs : a.stmts[i]? = some s)
-    (hn : s.pkg.needsRes = true) (hh : s.pcrHint = 2)
+    (hc : s.pkg.choices ≠ []) (hh : s.pcrHint = 2)
     (hl : s.operand.left = .val (.expr l r op m true))
     (hb : (if l.isAddress then l.int? else r.int?) = some b) (ht : a.stmts[b]? = some t)
     (hno : ∀ j u, min b i < j → j ≤ max b i → a.stmts[j]? = some u → u.row.mnemonic ≠ "ORG") :
-    ∃ x y k hk mk nk v, addrNat s = some x ∧ addrNat t = some y ∧
-      (if l.isAddress then r else l) = .numeric k hk mk nk ∧ (op = '+' ∨ op = '-') ∧
-      -128 ≤ (if op = '+' then (((y : Int) + signedK k nk).natAbs : Int) else (y : Int) - signedK k nk) - x - s.pkg.size ∧
-      (if op = '+' then (((y : Int) + signedK k nk).natAbs : Int) else (y : Int) - signedK k nk) - x - s.pkg.size ≤ 127 ∧
-      numericOfInt ((if op = '+' then (((y : Int) + signedK k nk).natAbs : Int) else (y : Int) - signedK k nk)
-        - x - s.pkg.size) (some 2) .none = .ok v ∧
-      fitWidth (withAdditional s v) = .ok s ∧
-      s.pkg.additional = .numeric
-        (((if op = '+' then (((y : Int) + signedK k nk).natAbs : Int) else (y : Int) - signedK k nk)
-          - x - s.pkg.size) % 256).toNat (some 2) .extended false := by
+    ∃ x y k hk mk nk v, ∃ d : Int, addrNat s = some x ∧ addrNat t = some y ∧
+      (if l.isAddress then r else l) = .numeric k hk mk nk ∧
+      ((op = '+' ∧ d = (y : Int) + signedK k nk - x - s.pkg.size) ∨
+       (op = '-' ∧ l.isAddress = true ∧ d = (y : Int) - signedK k nk - x - s.pkg.size) ∨
+       (op = '-' ∧ l.isAddress = false ∧ d = sdist16 (signedK k nk - (y : Int) - x - s.pkg.size))) ∧
+      -128 ≤ d ∧ d ≤ 127 ∧ numericOfInt d (some 2) .none = .ok v ∧ fitWidth (withAdditional s v) = .ok s ∧
+      s.pkg.additional = .numeric (d % 256).toNat (some 2) .extended false := by
   obtain ⟨st⟩ := assemble_stages h
-  obtain ⟨s3, s4, pre⟩ := st.pcr_pre hs hn
+  obtain ⟨s3, s4, pre⟩ := st.pcr_pre hs hc
   have hop : s.operand = s4.operand := pre.same.2.2.2.2
   have hadd4 : s4.pkg.additional = .expr l r op m true :=
-    pre.left pre.choices (.expr l r op m true) (by rw [← hop]; exact hl)
-  obtain ⟨b', hb', _, hw⟩ := st.pcr8_stored hs hn hh pre
+    pre.left pre.needs (.expr l r op m true) (by rw [← hop]; exact hl)
+  obtain ⟨b', hb', _, hw⟩ := st.pcr8_stored hs hh pre
   rw [hadd4] at hb'
   have hb'' : (if l.isAddress = true then l.int? else r.int?) = some b' := hb'
   rw [hb] at hb''
@@ -234,44 +238,33 @@ theorem C03_pcr_expr_width {fs : Files} {lines : List Str} {a : Assembly} (h : a
   rcases hd with ⟨he, _⟩ | ⟨l', r', op', m', k, hk, mk, nk, hexp, hoth, hcase⟩
   · simp [Value.isAddrExpr] at he
   · cases hexp
-    rcases hcase with ⟨rfl, hd⟩ | ⟨rfl, hd⟩
-    · subst hd
-      refine ⟨x, y, k, hk, mk, nk, v, hx, hy, hoth, .inl rfl, ?_, ?_, ?_, hfit, ?_⟩
-      · simpa using hlo
-      · simpa using hhi
-      · simpa using hnum
-      · simpa using hadd
-    · subst hd
-      have hne : ¬ ('-' = '+') := by decide
-      refine ⟨x, y, k, hk, mk, nk, v, hx, hy, hoth, .inr rfl, ?_, ?_, ?_, hfit, ?_⟩
-      · simpa [hne] using hlo
-      · simpa [hne] using hhi
-      · simpa [hne] using hnum
-      · simpa [hne] using hadd
+    exact ⟨x, y, k, hk, mk, nk, v, d, hx, hy, hoth, hcase, hlo, hhi, hnum, hfit, hadd⟩
 
-/-- **`label ± k,PCR` on the 8-bit form, ORG or not** (batch B2): the target is `|address(t) + c|` resp.
-`(address(t) − c) mod 65536` (`Target8`), and the signed 16-bit distance `d` from the end of `s` to it lies in
-`−128 .. 127` and ends as the byte `d mod 256` -/
+/-- **`label ± k,PCR` on the 8-bit form, ORG or not**: the target is `(address(t) + c) mod 65536` resp.
+`(address(t) − c) mod 65536` — batch B3: for EVERY sign of `c`, the exception for a negative sum is gone — or
+`(c − address(t)) mod 65536` for `c − label` (`Target8`), and the signed 16-bit distance `d` from the end of `s` to it
+lies in `−128 .. 127` and ends as the byte `d mod 256` -/
 theorem C03_pcr_expr_in_range {fs : Files} {lines : List Str} {a : Assembly} (h : assemble fs lines = .ok a)
     {i b : Nat} {l r : Value} {op : Char} {m : Mode} {s t : Stmt} (hs : a.stmts[i]? = some s)
-    (hn : s.pkg.needsRes = true) (hh : s.pcrHint = 2)
+    (hc : s.pkg.choices ≠ []) (hh : s.pcrHint = 2)
     (hl : s.operand.left = .val (.expr l r op m true))
     (hb : (if l.isAddress then l.int? else r.int?) = some b) (ht : a.stmts[b]? = some t) :
     ∃ x y k hk mk nk target v, addrNat s = some x ∧ addrNat t = some y ∧
       (if l.isAddress then r else l) = .numeric k hk mk nk ∧
-      ((op = '+' ∧ target = ((y : Int) + signedK k nk).natAbs) ∨
-       (op = '-' ∧ (target : Int) = ((y : Int) - signedK k nk) % 65536)) ∧
+      ((op = '+' ∧ (target : Int) = ((y : Int) + signedK k nk) % 65536) ∨
+       (op = '-' ∧ l.isAddress = true ∧ (target : Int) = ((y : Int) - signedK k nk) % 65536) ∨
+       (op = '-' ∧ l.isAddress = false ∧ (target : Int) = (signedK k nk - (y : Int)) % 65536)) ∧
       -128 ≤ sdist16 ((target : Int) - x - s.pkg.size) ∧ sdist16 ((target : Int) - x - s.pkg.size) ≤ 127 ∧
       numericOfInt (sdist16 ((target : Int) - x - s.pkg.size)) (some 2) .none = .ok v ∧
       fitWidth (withAdditional s v) = .ok s ∧
       s.pkg.additional = .numeric (sdist16 ((target : Int) - x - s.pkg.size) % 256).toNat (some 2) .extended false := by
   obtain ⟨st⟩ := assemble_stages h
-  obtain ⟨s3, s4, pre⟩ := st.pcr_pre hs hn
+  obtain ⟨s3, s4, pre⟩ := st.pcr_pre hs hc
   have hop : s.operand = s4.operand := pre.same.2.2.2.2
   have hadd4 : s4.pkg.additional = .expr l r op m true :=
-    pre.left pre.choices (.expr l r op m true) (by rw [← hop]; exact hl)
+    pre.left pre.needs (.expr l r op m true) (by rw [← hop]; exact hl)
   obtain ⟨b', t', x, y, target, v, hb', _, ht', hx, hy, htg, hlo, hhi, hnum, hfit, hadd⟩ :=
-    st.pcr8_any_target hs hn hh pre
+    st.pcr8_any_target hs hh pre
   rw [hadd4] at hb'
   have hb'' : (if l.isAddress = true then l.int? else r.int?) = some b' := hb'
   rw [hb] at hb''
@@ -283,6 +276,68 @@ theorem C03_pcr_expr_in_range {fs : Files} {lines : List Str} {a : Assembly} (h 
   · simp [Value.isAddrExpr] at he
   · cases hexp
     exact ⟨x, y, k, hk, mk, nk, target, v, hx, hy, hoth, hcase, hlo, hhi, hnum, hfit, hadd⟩
+
+/-! ### batch B3: every PCR statement, either width, with the target; and the label offset of a pointer register -/
+
+/-- **the PCR clause for every operand shape and both widths**: every PCR statement `s` of an accepted program stores
+the signed 16-bit distance from its end to the target `fix_addresses` computed (`PcrFieldAt`: `NumericValue(pcrJump,
+size_hint = pcrHint)`, accepted by `fit_operand_width`, a signed byte on the 8-bit form); and when the offset is a plain
+label or `label ± number` / `number ± label` (`exprForces = false`) the target is `Target8`: the address `y` of the
+statement `t` the operand names, `(y ± c) mod 65536` — for a NEGATIVE `c` as for a positive one — or `(c − y) mod 65536` -/
+theorem C03_pcr_field_target {fs : Files} {lines : List Str} {a : Assembly} (h : assemble fs lines = .ok a) :
+    ∃ ss4 : List Stmt, PW SameButAdditional ss4 a.stmts ∧
+      ∀ (i : Nat) (s4 s : Stmt), ss4[i]? = some s4 → a.stmts[i]? = some s → s.pkg.choices ≠ [] →
+        ∃ target, fixRel ss4 s4 = .ok target ∧ PcrFieldAt s target ∧
+          (exprForces s4.pkg.additional = false →
+            ∃ b t y, relIndex s4.pkg.additional = some b ∧ a.stmts[b]? = some t ∧ addrNat t = some y ∧
+              Target8 s4.pkg.additional y target) := by
+  obtain ⟨st⟩ := assemble_stages h
+  refine ⟨st.ss4, fixAll_pw st.hfix, ?_⟩
+  intro i s4 s hs4 hs hc
+  obtain ⟨s3, s4', pre⟩ := st.pcr_pre hs hc
+  have : s4' = s4 := by have := pre.h4; rw [hs4] at this; exact (Option.some.inj this).symm
+  subst this
+  obtain ⟨target, htgt, hfield⟩ := st.pcr_field hs pre
+  exact ⟨target, htgt, hfield, fun hf => pre.target htgt hf⟩
+
+/-- **`label ± c,PCR`, both widths, in source terms** (Phase 2a): `l`, `r` the two sides of the resolved expression, one the
+label of statement `b`, the other a number of signed value `c`; `op` is `+` or `-`.  Then the field of `s` aims at
+`target ≡ address(t) ± c (mod 65536)` — `c − address(t)` when the label stands right of the minus sign -/
+theorem C03_pcr_expr_field {fs : Files} {lines : List Str} {a : Assembly} (h : assemble fs lines = .ok a)
+    {i b k : Nat} {l r : Value} {op : Char} {m mk : Mode} {hk : Option Nat} {nk : Bool} {s t : Stmt}
+    (hs : a.stmts[i]? = some s) (hc : s.pkg.choices ≠ [])
+    (hl : s.operand.left = .val (.expr l r op m true)) (hop : op = '+' ∨ op = '-')
+    (hoth : (if l.isAddress then r else l) = .numeric k hk mk nk)
+    (hb : (if l.isAddress then l.int? else r.int?) = some b) (ht : a.stmts[b]? = some t) :
+    ∃ y target, addrNat t = some y ∧ PcrFieldAt s target ∧
+      ((op = '+' ∧ (target : Int) = ((y : Int) + signedK k nk) % 65536) ∨
+       (op = '-' ∧ l.isAddress = true ∧ (target : Int) = ((y : Int) - signedK k nk) % 65536) ∨
+       (op = '-' ∧ l.isAddress = false ∧ (target : Int) = (signedK k nk - (y : Int)) % 65536)) := by
+  obtain ⟨st⟩ := assemble_stages h
+  obtain ⟨s3, s4, pre⟩ := st.pcr_pre hs hc
+  have hop' : s.operand = s4.operand := pre.same.2.2.2.2
+  have hadd4 : s4.pkg.additional = .expr l r op m true :=
+    pre.left pre.needs (.expr l r op m true) (by rw [← hop']; exact hl)
+  have hf : exprForces s4.pkg.additional = false := by
+    rw [hadd4]
+    show (!(op == '+' || op == '-') || !((if l.isAddress = true then r else l).isNumeric)) = false
+    rw [hoth]
+    rcases hop with rfl | rfl <;> rfl
+  obtain ⟨target, htgt, hfield⟩ := st.pcr_field hs pre
+  obtain ⟨b', t', y, hb', ht', hy, htg⟩ := pre.target htgt hf
+  rw [hadd4] at hb'
+  have hb'' : (if l.isAddress = true then l.int? else r.int?) = some b' := hb'
+  rw [hb] at hb''
+  have : b = b' := Option.some.inj hb''
+  subst this
+  rw [ht] at ht'; cases ht'
+  rw [hadd4] at htg
+  rcases htg with ⟨he, _⟩ | ⟨l', r', op', m', k', hk', mk', nk', hexp, hoth', hcase⟩
+  · simp [Value.isAddrExpr] at he
+  · cases hexp
+    rw [hoth] at hoth'
+    cases hoth'
+    exact ⟨y, target, hy, hfield, hcase⟩
 
 /-! ### every 8-bit PCR statement of every accepted program (batch B2) -/
 
@@ -296,7 +351,7 @@ the statement to the target, with `−128 ≤ d ≤ 127`. -/
 theorem C03_pcr8_in_range {fs : Files} {lines : List Str} {a : Assembly} (h : assemble fs lines = .ok a) :
     ∃ ss4 : List Stmt, PW SameButAdditional ss4 a.stmts ∧
       ∀ (i : Nat) (s4 s : Stmt), ss4[i]? = some s4 → a.stmts[i]? = some s →
-        s.pkg.needsRes = true → s.pcrHint = 2 →
+        s.pkg.choices ≠ [] → s.pcrHint = 2 →
         ∃ b t x y target v, relIndex s4.pkg.additional = some b ∧ exprForces s4.pkg.additional = false ∧
           a.stmts[b]? = some t ∧ addrNat s = some x ∧ addrNat t = some y ∧ Target8 s4.pkg.additional y target ∧
           -128 ≤ sdist16 ((target : Int) - x - s.pkg.size) ∧ sdist16 ((target : Int) - x - s.pkg.size) ≤ 127 ∧
@@ -306,29 +361,29 @@ theorem C03_pcr8_in_range {fs : Files} {lines : List Str} {a : Assembly} (h : as
             .numeric (sdist16 ((target : Int) - x - s.pkg.size) % 256).toNat (some 2) .extended false := by
   obtain ⟨st⟩ := assemble_stages h
   refine ⟨st.ss4, fixAll_pw st.hfix, ?_⟩
-  intro i s4 s hs4 hs hn hh
-  obtain ⟨s3, s4', pre⟩ := st.pcr_pre hs hn
+  intro i s4 s hs4 hs hc hh
+  obtain ⟨s3, s4', pre⟩ := st.pcr_pre hs hc
   have : s4' = s4 := by have := pre.h4; rw [hs4] at this; exact (Option.some.inj this).symm
   subst this
-  exact st.pcr8_any_target hs hn hh pre
+  exact st.pcr8_any_target hs hh pre
 
 /-- **the width hint is the emitted post byte**: every PCR statement with a label offset of an accepted program has
 `pcrHint = 2` and a post byte `1xx01100` (low nibble `$C`: "8-bit offset from PC") or `pcrHint = 4` and `1xx01101`
 (low nibble `$D`: "16-bit offset from PC").  So the hypothesis `s.pcrHint = 2` of the width theorems says "the statement
 carries the 8-bit post byte". -/
 theorem C03_pcr_postbyte {fs : Files} {lines : List Str} {a : Assembly} (h : assemble fs lines = .ok a)
-    {i : Nat} {s : Stmt} (hs : a.stmts[i]? = some s) (hn : s.pkg.needsRes = true) :
+    {i : Nat} {s : Stmt} (hs : a.stmts[i]? = some s) (hc : s.pkg.choices ≠ []) :
     ∃ pb, s.pkg.postByte.int? = some pb ∧
       ((s.pcrHint = 2 ∧ pb % 16 = 12) ∨ (s.pcrHint = 4 ∧ pb % 16 = 13)) := by
   obtain ⟨st⟩ := assemble_stages h
-  obtain ⟨s3, s4, pre⟩ := st.pcr_pre hs hn
+  obtain ⟨s3, s4, pre⟩ := st.pcr_pre hs hc
   exact st.pcr_postbyte pre
 
 /-- ... in particular a PCR statement whose post byte has the low nibble `$C` is on the 8-bit form -/
 theorem C03_pcr_postbyte8 {fs : Files} {lines : List Str} {a : Assembly} (h : assemble fs lines = .ok a)
-    {i pb : Nat} {s : Stmt} (hs : a.stmts[i]? = some s) (hn : s.pkg.needsRes = true)
+    {i pb : Nat} {s : Stmt} (hs : a.stmts[i]? = some s) (hc : s.pkg.choices ≠ [])
     (hpb : s.pkg.postByte.int? = some pb) (h8 : pb % 16 = 12) : s.pcrHint = 2 := by
-  obtain ⟨pb', h1, h2⟩ := C03_pcr_postbyte h hs hn
+  obtain ⟨pb', h1, h2⟩ := C03_pcr_postbyte h hs hc
   rw [hpb] at h1
   cases h1
   rcases h2 with ⟨h2, _⟩ | ⟨_, h2⟩
@@ -339,7 +394,7 @@ theorem C03_pcr_postbyte8 {fs : Files} {lines : List Str} {a : Assembly} (h : as
 theorem C03_pcr8_in_range_postbyte {fs : Files} {lines : List Str} {a : Assembly} (h : assemble fs lines = .ok a) :
     ∃ ss4 : List Stmt, PW SameButAdditional ss4 a.stmts ∧
       ∀ (i pb : Nat) (s4 s : Stmt), ss4[i]? = some s4 → a.stmts[i]? = some s →
-        s.pkg.needsRes = true → s.pkg.postByte.int? = some pb → pb % 16 = 12 →
+        s.pkg.choices ≠ [] → s.pkg.postByte.int? = some pb → pb % 16 = 12 →
         ∃ b t x y target v, relIndex s4.pkg.additional = some b ∧ exprForces s4.pkg.additional = false ∧
           a.stmts[b]? = some t ∧ addrNat s = some x ∧ addrNat t = some y ∧ Target8 s4.pkg.additional y target ∧
           -128 ≤ sdist16 ((target : Int) - x - s.pkg.size) ∧ sdist16 ((target : Int) - x - s.pkg.size) ≤ 127 ∧
@@ -348,7 +403,7 @@ theorem C03_pcr8_in_range_postbyte {fs : Files} {lines : List Str} {a : Assembly
           s.pkg.additional =
             .numeric (sdist16 ((target : Int) - x - s.pkg.size) % 256).toNat (some 2) .extended false := by
   obtain ⟨ss4, hpw, hall⟩ := C03_pcr8_in_range h
-  exact ⟨ss4, hpw, fun i pb s4 s hs4 hs hn hpb h8 => hall i s4 s hs4 hs hn (C03_pcr_postbyte8 h hs hn hpb h8)⟩
+  exact ⟨ss4, hpw, fun i pb s4 s hs4 hs hc hpb h8 => hall i s4 s hs4 hs hc (C03_pcr_postbyte8 h hs hc hpb h8)⟩
 
 /-- the emitted byte: the last byte of an 8-bit PCR statement is `d mod 256`, `d` as in `C03_pcr8_in_range` -/
 theorem C03_pcr8_byte {s : Stmt} {bs : Bytes} {d : Int} (hb : stmtBytes s = some bs)
@@ -368,13 +423,13 @@ theorem C03_width_partial :
     (∀ (ss1 ss2 fin : List Stmt) (fuel : Nat), translateAll ss1 = some ss2 → pcrLoop fuel ss2 = .ok fin →
       PW (fun s f => s.pkg.size ≤ f.pkg.size ∧ f.pkg.size ≤ s.pkg.maxSize ∧ (s.fixedSize = true → f = s)) ss2 fin) ∧
     (∀ (fs : Files) (lines : List Str) (a : Assembly), assemble fs lines = .ok a →
-      ∀ (i b : Nat) (m : Mode) (s t : Stmt), a.stmts[i]? = some s → s.pkg.needsRes = true →
+      ∀ (i b : Nat) (m : Mode) (s t : Stmt), a.stmts[i]? = some s → s.pkg.choices ≠ [] →
         s.operand.left = .val (.address b m) → a.stmts[b]? = some t →
         PcrField s t) ∧
     (∀ (fs : Files) (lines : List Str) (a : Assembly), assemble fs lines = .ok a →
       ∃ ss4 : List Stmt, PW SameButAdditional ss4 a.stmts ∧
         ∀ (i : Nat) (s4 s : Stmt), ss4[i]? = some s4 → a.stmts[i]? = some s →
-          s.pkg.needsRes = true → s.pcrHint = 2 →
+          s.pkg.choices ≠ [] → s.pcrHint = 2 →
           ∃ b, relIndex s4.pkg.additional = some b ∧ exprForces s4.pkg.additional = false ∧
             ∀ t, a.stmts[b]? = some t →
               (∀ j u, min b i < j → j ≤ max b i → a.stmts[j]? = some u → u.row.mnemonic ≠ "ORG") →
@@ -385,7 +440,7 @@ theorem C03_width_partial :
     (∀ (fs : Files) (lines : List Str) (a : Assembly), assemble fs lines = .ok a →
       ∃ ss4 : List Stmt, PW SameButAdditional ss4 a.stmts ∧
         ∀ (i : Nat) (s4 s : Stmt), ss4[i]? = some s4 → a.stmts[i]? = some s →
-          s.pkg.needsRes = true → s.pcrHint = 2 →
+          s.pkg.choices ≠ [] → s.pcrHint = 2 →
           ∃ b t x y target v, relIndex s4.pkg.additional = some b ∧ exprForces s4.pkg.additional = false ∧
             a.stmts[b]? = some t ∧ addrNat s = some x ∧ addrNat t = some y ∧ Target8 s4.pkg.additional y target ∧
             -128 ≤ sdist16 ((target : Int) - x - s.pkg.size) ∧ sdist16 ((target : Int) - x - s.pkg.size) ≤ 127 ∧
@@ -394,27 +449,27 @@ theorem C03_width_partial :
             s.pkg.additional =
               .numeric (sdist16 ((target : Int) - x - s.pkg.size) % 256).toNat (some 2) .extended false) :=
   ⟨fun _ _ _ _ ht h => C03_size_sound ht h,
-   fun _ _ _ h _ _ _ _ _ hs hn hl ht => C03_pcr_label h hs hn hl ht,
+   fun _ _ _ h _ _ _ _ _ hs hc hl ht => C03_pcr_label h hs hc hl ht,
    fun _ _ _ h => C03_pcr8_width h,
    fun _ _ _ h => C03_pcr8_in_range h⟩
 
 /-! ### witnesses (kernel-checked) -/
 
-/-- statement `i` is a PCR statement with the given width hint, size, address and emitted bytes -/
+/-- statement `i` is a PCR statement (post byte choices) with the given width hint, size, address and emitted bytes -/
 private def pcrIs (a : Assembly) (i hint size addr : Nat) (bytes : Bytes) : Bool :=
   match a.stmts[i]? with
-  | some s => s.pkg.needsRes && s.pcrHint == hint && s.pkg.size == size && addrNat s == some addr &&
+  | some s => !s.pkg.choices.isEmpty && s.pcrHint == hint && s.pkg.size == size && addrNat s == some addr &&
       stmtBytes s == some bytes
   | none => false
 
 private theorem pcrIs_spec {a : Assembly} {i hint size addr : Nat} {bytes : Bytes}
     (h : pcrIs a i hint size addr bytes = true) :
-    ∃ s, a.stmts[i]? = some s ∧ s.pkg.needsRes = true ∧ s.pcrHint = hint ∧ s.pkg.size = size ∧
+    ∃ s, a.stmts[i]? = some s ∧ s.pkg.choices ≠ [] ∧ s.pcrHint = hint ∧ s.pkg.size = size ∧
       addrNat s = some addr ∧ stmtBytes s = some bytes := by
   unfold pcrIs at h
   split at h
   · rename_i s hs
-    simp only [Bool.and_eq_true, beq_iff_eq] at h
+    simp only [Bool.and_eq_true, beq_iff_eq, Bool.not_eq_true', List.isEmpty_eq_false_iff] at h
     obtain ⟨⟨⟨⟨h1, h2⟩, h3⟩, h4⟩, h5⟩ := h
     exact ⟨s, hs, h1, h2, h3, h4, h5⟩
   · cases h
@@ -423,7 +478,7 @@ private theorem pcrIs_spec {a : Assembly} {i hint size addr : Nat} {bytes : Byte
 def C03_tightWitness : List Str := ["T RMB 125\n", " LEAX T,PCR\n"].map String.toList
 
 theorem C03_width_tight :
-    ∃ a s, assemble [] C03_tightWitness = .ok a ∧ a.stmts[1]? = some s ∧ s.pkg.needsRes = true ∧ s.pcrHint = 2 ∧
+    ∃ a s, assemble [] C03_tightWitness = .ok a ∧ a.stmts[1]? = some s ∧ s.pkg.choices ≠ [] ∧ s.pcrHint = 2 ∧
       s.pkg.size = 3 ∧ addrNat s = some 125 ∧ stmtBytes s = some [0x30, 0x8C, 0x80] := by
   obtain ⟨a, ha, hc⟩ := checkProgram_sound (lines := C03_tightWitness)
     (check := fun a => pcrIs a 1 2 3 125 [0x30, 0x8C, 0x80]) (by decide +kernel) []
@@ -434,7 +489,7 @@ theorem C03_width_tight :
 def C03_tightWitness16 : List Str := ["T RMB 126\n", " LEAX T,PCR\n"].map String.toList
 
 theorem C03_width_tight16 :
-    ∃ a s, assemble [] C03_tightWitness16 = .ok a ∧ a.stmts[1]? = some s ∧ s.pkg.needsRes = true ∧ s.pcrHint = 4 ∧
+    ∃ a s, assemble [] C03_tightWitness16 = .ok a ∧ a.stmts[1]? = some s ∧ s.pkg.choices ≠ [] ∧ s.pcrHint = 4 ∧
       s.pkg.size = 4 ∧ addrNat s = some 126 ∧ stmtBytes s = some [0x30, 0x8D, 0xFF, 0x7E] := by
   obtain ⟨a, ha, hc⟩ := checkProgram_sound (lines := C03_tightWitness16)
     (check := fun a => pcrIs a 1 4 4 126 [0x30, 0x8D, 0xFF, 0x7E]) (by decide +kernel) []
@@ -510,7 +565,7 @@ private def pcrOrgCheck (a : Assembly) : Bool :=
 theorem C03_pcr_org_example :
     ∃ a s o t m, assemble [] C03_pcrOrgExample = .ok a ∧ a.stmts[0]? = some s ∧ a.stmts[1]? = some o ∧
       a.stmts[2]? = some t ∧ o.row.mnemonic = "ORG" ∧
-      s.pkg.needsRes = true ∧ s.operand.left = .val (.address 2 m) ∧ s.pcrHint = 2 ∧ addrNat s = some 0 ∧
+      s.pkg.choices ≠ [] ∧ s.operand.left = .val (.address 2 m) ∧ s.pcrHint = 2 ∧ addrNat s = some 0 ∧
       addrNat t = some 16 ∧ stmtBytes s = some [0x30, 0x8C, 0x0D] ∧ PcrField s t := by
   obtain ⟨a, ha, hc⟩ := checkProgram_sound (lines := C03_pcrOrgExample) (check := pcrOrgCheck) (by decide +kernel) []
   unfold pcrOrgCheck at hc
@@ -529,21 +584,169 @@ theorem C03_pcr_org_example :
     · cases h3
   · cases h2
 
-/-! ### finding: `label + N,PCR` with a negative `N` below `−address(label)` -/
+/-! ### REPAIRED (batch B3): `label + N,PCR` with a negative `N` below `−address(label)` -/
 
-/-- `N EQU -5 / L LEAX L+N,PCR` at address 0: `fix_addresses` takes the `.int` (the MAGNITUDE) of
-`calculate_address_offset`'s result `0 + (−5)`, so the target is 5, not `−5 mod 65536 = $FFFB`; the byte `$02`
-(`5 − 0 − 3`) is emitted where `$F8` (`−5 − 0 − 3`) reaches `L−5`.  (`L-5,PCR` is right: `−` is reduced modulo 65536;
-`FDB L+N`, `LDX #L+N`, `LDX L+N` are right too: `$FFFB`, two's complement at four digits.)  True of the model and of
-the real code; see `fixRel_target_expr`, `Target8`. -/
+/-- `N EQU -5 / L LEAX L+N,PCR` at address 0.  Formerly `fix_addresses` took the `.int` (the MAGNITUDE) of
+`calculate_address_offset`'s result `0 + (−5)`, so the target was 5 and the byte `$02` (`5 − 0 − 3`) was emitted. -/
 def C03_plusNegativeWitness : List Str := ["N EQU -5\n", "L LEAX L+N,PCR\n", " LEAX L-5,PCR\n"].map String.toList
 
-theorem C03_pcr_plus_negative_finding :
+/-- REPAIRED (formerly `C03_pcr_plus_negative_finding`, byte `$02`): `calculate_address_offset` now reduces a result
+below zero modulo 65536 for every operator, so `L+N` with `N = −5` at address 0 aims at `−5 mod 65536 = $FFFB` and the
+byte `$F8` (`−5 − 0 − 3`) reaches `L−5`, exactly as `L-5,PCR` does (`$F5` at address 3).  Replayed on /tmp/wt-b3n: same
+bytes.  The general statement: `C03_pcr_expr_in_range`, `C03_pcr_expr_field` (target `≡ address + c (mod 65536)`,
+whatever the sign of `c`). -/
+theorem C03_pcr_plus_negative_fixed :
     ∃ a, assemble [] C03_plusNegativeWitness = .ok a ∧
-      pcrIs a 1 2 3 0 [0x30, 0x8C, 0x02] = true ∧ pcrIs a 2 2 3 3 [0x30, 0x8C, 0xF5] = true := by
+      pcrIs a 1 2 3 0 [0x30, 0x8C, 0xF8] = true ∧ pcrIs a 2 2 3 3 [0x30, 0x8C, 0xF5] = true := by
   obtain ⟨a, ha, hc⟩ := checkProgram_sound (lines := C03_plusNegativeWitness)
-    (check := fun a => pcrIs a 1 2 3 0 [0x30, 0x8C, 0x02] && pcrIs a 2 2 3 3 [0x30, 0x8C, 0xF5]) (by decide +kernel) []
+    (check := fun a => pcrIs a 1 2 3 0 [0x30, 0x8C, 0xF8] && pcrIs a 2 2 3 3 [0x30, 0x8C, 0xF5]) (by decide +kernel) []
   simp only [Bool.and_eq_true] at hc
   exact ⟨a, ha, hc.1, hc.2⟩
+
+/-! ### batch B3: the label offset of a pointer register carries the ADDRESS -/
+
+/-- the 16-bit offset field of `s` holds the address `target`: `fix_addresses` computes `NumericValue(target,
+size_hint=4)`, `fit_operand_width` accepts it, and the final field is `target` at four hex digits -/
+def AbsFieldAt (s : Stmt) (target : Nat) : Prop :=
+  target ≤ 65535 ∧
+  (∃ v, numericOfInt (target : Int) (some 4) .none = .ok v ∧ fitWidth (withAdditional s v) = .ok s) ∧
+  s.pkg.additional = .numeric target (some 4) .extended false
+
+/-- **a label (expression) as constant offset of a pointer register** (`LDA TABLE,X`, `LDB TBL+1,Y`, `LDD [TBL,U]`:
+`needsRes` WITHOUT post byte choices): for every accepted program the 16-bit offset field is the target `fix_addresses`
+computed, and for a plain label or `label ± number` / `number ± label` that target is `Target8`: the address `y` of the
+statement the operand names, `(y ± c) mod 65536`, `(c − y) mod 65536`.  Not PC-relative: no distance is taken. -/
+theorem C03_label_offset_target {fs : Files} {lines : List Str} {a : Assembly} (h : assemble fs lines = .ok a) :
+    ∃ ss4 : List Stmt, PW SameButAdditional ss4 a.stmts ∧
+      ∀ (i : Nat) (s4 s : Stmt), ss4[i]? = some s4 → a.stmts[i]? = some s →
+        s.pkg.needsRes = true → s.pkg.choices = [] →
+        ∃ target, fixRel ss4 s4 = .ok target ∧ AbsFieldAt s target ∧
+          (exprForces s4.pkg.additional = false →
+            ∃ b t y, relIndex s4.pkg.additional = some b ∧ a.stmts[b]? = some t ∧ addrNat t = some y ∧
+              Target8 s4.pkg.additional y target) := by
+  obtain ⟨st⟩ := assemble_stages h
+  refine ⟨st.ss4, fixAll_pw st.hfix, ?_⟩
+  intro i s4 s hs4 hs hn hc
+  obtain ⟨s4', pre⟩ := st.abs_pre hs hn hc
+  have : s4 = s4' := by have := pre.h4; rw [hs4] at this; exact Option.some.inj this
+  subst this
+  obtain ⟨target, v, htgt, hnum, hfit⟩ := pre.stored
+  obtain ⟨n, _, _, hadd, _, _, _, _⟩ := C02_label_offset_field h hs hn hc
+  have hle : target ≤ 65535 := by have := (numericOfInt_int hnum).2; omega
+  obtain ⟨hh, mm, rfl⟩ := numericOfInt_signed hnum
+  have hneg : decide ((target : Int) < 0) = false := by simp
+  rw [hneg] at hfit hnum
+  have hnt : n = target := by simpa using fitWidth_abs_field hfit (by simpa using hle) hadd
+  subst hnt
+  have hw : ∀ v, withAdditional s v = withAdditional s4 v := by
+    obtain ⟨w, hw⟩ := pre.rel4; rw [hw]; intro v; rfl
+  exact ⟨n, htgt, ⟨hle, ⟨_, hnum, by rw [hw]; simpa using hfit⟩, hadd⟩,
+    fun hf => st.fixRel_target8 pre.idx pre.lr htgt hf⟩
+
+/-- plain label: `LDA T,X` carries the address of `T` in its 16-bit offset field, and the last two bytes emitted are
+that address, high byte first -/
+theorem C03_label_offset {fs : Files} {lines : List Str} {a : Assembly} (h : assemble fs lines = .ok a)
+    {i b : Nat} {m : Mode} {s t : Stmt} (hs : a.stmts[i]? = some s) (hn : s.pkg.needsRes = true)
+    (hc : s.pkg.choices = []) (hl : s.operand.left = .val (.address b m)) (ht : a.stmts[b]? = some t) :
+    ∃ y, addrNat t = some y ∧ AbsFieldAt s y ∧
+      ∀ bs, stmtBytes s = some bs → ∃ pre, bs = pre ++ [y / 256, y % 256] := by
+  obtain ⟨st⟩ := assemble_stages h
+  obtain ⟨s4, pre⟩ := st.abs_pre hs hn hc
+  obtain ⟨target, v, htgt, hnum, hfit⟩ := pre.stored
+  have hop : s.operand = s4.operand := by obtain ⟨w, hw⟩ := pre.rel4; rw [hw]
+  obtain ⟨hh, mm, hadd4⟩ : ∃ hh mm, s4.pkg.additional = .numeric b hh mm false :=
+    pre.left pre.needs (.address b m) (by rw [← hop]; exact hl)
+  have he : s4.pkg.additional.isAddrExpr = false := by rw [hadd4]; rfl
+  have hb : relIndex s4.pkg.additional = some b := by rw [hadd4]; rfl
+  have hy' := fixRel_target_plain he hb htgt
+  rw [st.addrIntOf4 ht] at hy'
+  obtain ⟨n, _, _, hadd, _, _, _, _⟩ := C02_label_offset_field h hs hn hc
+  have hle : target ≤ 65535 := by have := (numericOfInt_int hnum).2; omega
+  obtain ⟨hh', mm', rfl⟩ := numericOfInt_signed hnum
+  have hneg : decide ((target : Int) < 0) = false := by simp
+  rw [hneg] at hfit hnum
+  have hnt : n = target := by simpa using fitWidth_abs_field hfit (by simpa using hle) hadd
+  subst hnt
+  have hw : ∀ v, withAdditional s v = withAdditional s4 v := by
+    obtain ⟨w, hw⟩ := pre.rel4; rw [hw]; intro v; rfl
+  refine ⟨n, hy', ⟨hle, ⟨_, hnum, by rw [hw]; simpa using hfit⟩, hadd⟩, fun bs hbs => ?_⟩
+  exact stmtBytes_suffix hbs (by rw [hadd]; exact emit16 n (by omega))
+
+/-- **the class of a `needsRes` statement can be read off the emitted post byte**: low nibble `9` (16-bit constant offset
+from the register) for a label offset — no post byte choices, the size loop never touched it —, `$C` / `$D` for a PCR
+operand (`C03_pcr_postbyte`) -/
+theorem C03_label_offset_postbyte {fs : Files} {lines : List Str} {a : Assembly} (h : assemble fs lines = .ok a)
+    {i : Nat} {s : Stmt} (hs : a.stmts[i]? = some s) (hn : s.pkg.needsRes = true) (hc : s.pkg.choices = []) :
+    ∃ pb, s.pkg.postByte.int? = some pb ∧ pb % 16 = 9 := by
+  obtain ⟨st⟩ := assemble_stages h
+  exact st.abs_postbyte hs hn hc
+
+/-- batch B3 in one program (`ORG $20`, `N EQU -40`): `L+N,PCR` with a negative `N` (`$D5`: aims at `$FFF8 = L − 40`),
+`5-L,PCR` (`$BF`: aims at `$FFE5 = 5 − L`), `N+L,PCR` (the label on the right of `+`: same target as `L+N`), all on the
+8-bit form; and the label offsets `L+N,X` (field `FFF8`), `L,Y` (field `0020`), `[L-1,U]` (field `001F`): `needsRes`
+without choices, four bytes.  Replayed on /tmp/wt-b3n: same bytes. -/
+def C03_b3Witness : List Str :=
+  [" ORG $20\n", "N EQU -40\n", "L LEAX L+N,PCR\n", " LEAX 5-L,PCR\n", " LDA L+N,X\n", " LDB L,Y\n", " LEAX N+L,PCR\n",
+   " LDD [L-1,U]\n"].map String.toList
+
+/-- statement `i` is a label offset (no post byte choices) with the given size, address and emitted bytes -/
+private def absIs (a : Assembly) (i size addr : Nat) (bytes : Bytes) : Bool :=
+  match a.stmts[i]? with
+  | some s => s.pkg.needsRes && s.pkg.choices.isEmpty && s.pkg.size == size && addrNat s == some addr &&
+      stmtBytes s == some bytes
+  | none => false
+
+theorem C03_b3_example :
+    ∃ a, assemble [] C03_b3Witness = .ok a ∧
+      pcrIs a 2 2 3 0x20 [0x30, 0x8C, 0xD5] = true ∧ pcrIs a 3 2 3 0x23 [0x30, 0x8C, 0xBF] = true ∧
+      absIs a 4 4 0x26 [0xA6, 0x89, 0xFF, 0xF8] = true ∧ absIs a 5 4 0x2A [0xE6, 0xA9, 0x00, 0x20] = true ∧
+      pcrIs a 6 2 3 0x2E [0x30, 0x8C, 0xC7] = true ∧ absIs a 7 4 0x31 [0xEC, 0xD9, 0x00, 0x1F] = true := by
+  obtain ⟨a, ha, hc⟩ := checkProgram_sound (lines := C03_b3Witness)
+    (check := fun a => pcrIs a 2 2 3 0x20 [0x30, 0x8C, 0xD5] && pcrIs a 3 2 3 0x23 [0x30, 0x8C, 0xBF] &&
+      absIs a 4 4 0x26 [0xA6, 0x89, 0xFF, 0xF8] && absIs a 5 4 0x2A [0xE6, 0xA9, 0x00, 0x20] &&
+      pcrIs a 6 2 3 0x2E [0x30, 0x8C, 0xC7] && absIs a 7 4 0x31 [0xEC, 0xD9, 0x00, 0x1F]) (by decide +kernel) []
+  simp only [Bool.and_eq_true] at hc
+  obtain ⟨⟨⟨⟨⟨h1, h2⟩, h3⟩, h4⟩, h5⟩, h6⟩ := hc
+  exact ⟨a, ha, h1, h2, h3, h4, h5, h6⟩
+
+/-! ### finding (batch B3): `number − label,PCR` is SIZED as if it were `label ± number` -/
+
+/-- `A LEAX 5-A,PCR` at `$1000`: the operand denotes `5 − $1000 ≡ $F005`, `$E002` bytes away, which the 16-bit PCR form
+encodes; but the size loop (`exprForces = false`, `exprExtra = 5`) estimates the distance as that of `A ± 5`, settles on the
+8-bit form, and the range check of `fix_addresses` then rejects the program ("out of range of the 8-bit offset").  A false
+rejection, never a wrong byte (`C03_pcr_field_target`); with a constant above 127 (`$2000-A`: `exprExtra = $2000`) or a
+product (`2*A`) the 16-bit form is taken and the program is accepted.  True of the model AND of /tmp/wt-b3n (found by the
+relocation sub-agent, replayed: same outcomes and bytes). -/
+theorem C03_pcr_reversed_minus_finding (fs : Files) :
+    assemble fs ([" ORG $1000\n", "A LEAX 5-A,PCR\n"].map String.toList) = .diag ∧
+    (∃ a, assemble [] ([" ORG $1000\n", "A LEAX $2000-A,PCR\n"].map String.toList) = .ok a ∧
+      pcrIs a 1 4 4 0x1000 [0x30, 0x8D, 0xFF, 0xFC] = true) ∧
+    (∃ a, assemble [] ([" ORG $1000\n", "A LEAX 2*A,PCR\n"].map String.toList) = .ok a ∧
+      pcrIs a 1 4 4 0x1000 [0x30, 0x8D, 0x0F, 0xFC] = true) :=
+  ⟨diagProgram_sound (by decide +kernel) fs,
+   checkProgram_sound (check := fun a => pcrIs a 1 4 4 0x1000 [0x30, 0x8D, 0xFF, 0xFC]) (by decide +kernel) [],
+   checkProgram_sound (check := fun a => pcrIs a 1 4 4 0x1000 [0x30, 0x8D, 0x0F, 0xFC]) (by decide +kernel) []⟩
+
+/-- batch B3, what is added.  (5) every PCR statement (post byte choices), 8-bit or 16-bit form: the field is the signed
+16-bit distance to the target `fix_addresses` computed, and that target is `Target8` for a plain label or `label ± number` /
+`number ± label`; (6) every label offset of a pointer register (`needsRes` without choices): the 16-bit field is the
+target ADDRESS itself. -/
+theorem C03_width_partial_b3 :
+    (∀ (fs : Files) (lines : List Str) (a : Assembly), assemble fs lines = .ok a →
+      ∃ ss4 : List Stmt, PW SameButAdditional ss4 a.stmts ∧
+        ∀ (i : Nat) (s4 s : Stmt), ss4[i]? = some s4 → a.stmts[i]? = some s → s.pkg.choices ≠ [] →
+          ∃ target, fixRel ss4 s4 = .ok target ∧ PcrFieldAt s target ∧
+            (exprForces s4.pkg.additional = false →
+              ∃ b t y, relIndex s4.pkg.additional = some b ∧ a.stmts[b]? = some t ∧ addrNat t = some y ∧
+                Target8 s4.pkg.additional y target)) ∧
+    (∀ (fs : Files) (lines : List Str) (a : Assembly), assemble fs lines = .ok a →
+      ∃ ss4 : List Stmt, PW SameButAdditional ss4 a.stmts ∧
+        ∀ (i : Nat) (s4 s : Stmt), ss4[i]? = some s4 → a.stmts[i]? = some s →
+          s.pkg.needsRes = true → s.pkg.choices = [] →
+          ∃ target, fixRel ss4 s4 = .ok target ∧ AbsFieldAt s target ∧
+            (exprForces s4.pkg.additional = false →
+              ∃ b t y, relIndex s4.pkg.additional = some b ∧ a.stmts[b]? = some t ∧ addrNat t = some y ∧
+                Target8 s4.pkg.additional y target)) :=
+  ⟨fun _ _ _ h => C03_pcr_field_target h, fun _ _ _ h => C03_label_offset_target h⟩
 
 end CoCo.Props
